@@ -260,6 +260,15 @@ pub fn op1(op: &Op1, inp: &Seq) -> Option<Seq> {
         o => o,
       },
     }),
+    Op1::OnComplete => Some(Seq { items: xs.clone(), t }),
+    // the error ends in the handler: downstream sees no terminal at all
+    Op1::OnError => Some(Seq {
+      items: xs.clone(),
+      t: match t {
+        T::Err(_) => T::Open,
+        o => o,
+      },
+    }),
     _ => None,
   }
 }
